@@ -71,7 +71,7 @@ SPEC = {
     "sub": "c04",
     "lean_modules": ["TrustVerif.Props.C04"],
     "tiers": {
-        "quick": {"cases": 2500, "extra": {"steps": 40}},
+        "quick": {"cases": 4000, "extra": {"steps": 40}},
         # the thorough tier runs THOROUGH_CHUNKS chunks of this size with derived seeds (see `run`), so
         # that the cases file of one chunk stays small enough to diff in memory: 5 x 20 000 = 100 000 cases
         "thorough": {"cases": 20000, "extra": {"steps": 48}},
